@@ -83,6 +83,7 @@ type reader struct {
 	faults *faults
 
 	c        *gortsplib.Client
+	raw      *rawReader // hand-written TCP reader instead of the library client
 	mediaIdx map[*description.Media]int
 	state    string // "" | playing | paused | gone
 
@@ -152,6 +153,8 @@ type harness struct {
 	pkPub     []pktMeta
 	fpNoMedia map[[3]uint32]int
 	pubSent   atomic.Int64 // relay over UDP: RTP datagrams the publisher socket sent
+	rawPub    *rawPublisher
+	pubConns  []*pubPC // relay over UDP: the publisher's RTP sockets with fault injection (one per media)
 	pubSess   *gortsplib.ServerSession
 	pubClosed chan struct{}
 }
@@ -446,9 +449,15 @@ func (h *harness) stop() {
 		if rd.c != nil {
 			rd.c.Close()
 		}
+		if rd.raw != nil {
+			rd.raw.close()
+		}
 	}
 	if h.pub != nil {
 		h.pub.Close()
+	}
+	if h.rawPub != nil {
+		h.rawPub.close()
 	}
 	if h.stream != nil {
 		h.stream.Close()
@@ -503,12 +512,17 @@ func (h *harness) identify(m int, fpt uint8, pkt *rtp.Packet) (int, string) {
 }
 
 func (rd *reader) onPacket(medi *description.Media, forma format.Format, pkt *rtp.Packet) {
-	h := rd.h
 	m, ok := rd.mediaIdx[medi]
 	if !ok {
 		m = -1
 	}
-	r := rec{m: m, pt: forma.PayloadType(), hpt: pkt.PayloadType, seq: pkt.SequenceNumber, ts: pkt.Timestamp,
+	rd.record(m, forma.PayloadType(), pkt)
+}
+
+// record: one callback invocation (media index, format, packet).
+func (rd *reader) record(m int, fpt uint8, pkt *rtp.Packet) {
+	h := rd.h
+	r := rec{m: m, pt: fpt, hpt: pkt.PayloadType, seq: pkt.SequenceNumber, ts: pkt.Timestamp,
 		marker: pkt.Marker, ssrc: pkt.SSRC, dg: digest(pkt.Payload), stamp: h.clock.Add(1)}
 	r.wid, r.why = h.identify(m, r.pt, pkt)
 	rd.mu.Lock()
@@ -569,7 +583,12 @@ func (rd *reader) connect() error {
 	return err
 }
 
+func (rd *reader) connected() bool { return rd.c != nil || rd.raw != nil }
+
 func (rd *reader) connect1() error {
+	if rd.spec.Raw {
+		return rd.connectRaw()
+	}
 	h := rd.h
 	scheme := "rtsp"
 	if h.sc.TLS {
@@ -652,12 +671,16 @@ func (rd *reader) connect1() error {
 func (rd *reader) doPlay() {
 	h := rd.h
 	ob := cobs{op: "play", k0: rd.count(), cs: h.clock.Add(1)}
-	if rd.c == nil {
+	if !rd.connected() {
 		ob.first = true
 		ob.err = rd.connect()
 	}
 	if ob.err == nil {
-		_, ob.err = rd.c.Play(nil)
+		if rd.raw != nil {
+			ob.err = rd.raw.play()
+		} else {
+			_, ob.err = rd.c.Play(nil)
+		}
 	}
 	ob.cd = h.clock.Add(1)
 	ob.k = rd.count()
@@ -672,6 +695,9 @@ func (rd *reader) doPlay() {
 func (rd *reader) doPause() {
 	h := rd.h
 	ob := cobs{op: "pause", cs: h.clock.Add(1)}
+	if rd.raw != nil {
+		return // (raw readers do not pause)
+	}
 	_, ob.err = rd.c.Pause()
 	ob.k = rd.count()
 	ob.cd = h.clock.Add(1)
@@ -685,12 +711,16 @@ func (rd *reader) doPause() {
 
 func (rd *reader) doLeave(graceful bool, drainK int) {
 	h := rd.h
-	if rd.c == nil {
+	if !rd.connected() {
 		rd.state = "gone"
 		return
 	}
 	ob := cobs{op: "leave", cs: h.clock.Add(1), graceful: graceful, drainK: drainK}
-	rd.c.Close()
+	if rd.raw != nil {
+		rd.raw.close()
+	} else {
+		rd.c.Close()
+	}
 	ob.k = rd.count()
 	rd.mu.Lock()
 	ob.hadSession = rd.sess != nil
@@ -713,7 +743,7 @@ func (rd *reader) doLeave(graceful bool, drainK int) {
 func (rd *reader) exec(st Step) {
 	switch st.Op {
 	case "setup":
-		if rd.c == nil {
+		if !rd.connected() {
 			ob := cobs{op: "setup", cs: rd.h.clock.Add(1)}
 			ob.err = rd.connect()
 			ob.cd = rd.h.clock.Add(1)
@@ -902,7 +932,14 @@ func (h *harness) startPublisher() error {
 				pc.Close()
 				return nil, fmt.Errorf("unexpected packet conn type %T", pc)
 			}
-			return &pubPC{UDPConn: uc, sent: &h.pubSent, port: uc.LocalAddr().(*net.UDPAddr).Port}, nil
+			port := uc.LocalAddr().(*net.UDPAddr).Port
+			w := &pubPC{UDPConn: uc, sent: &h.pubSent, port: port}
+			if port%2 == 0 && (sc.PubLoss > 0 || sc.PubDup > 0 || sc.PubReorder > 0) {
+				// (one injector per socket: a held datagram must leave from the socket it was written to)
+				w.faults = &faults{rng: newRng(sc.Seed, uint64(777+len(h.pubConns))), loss: sc.PubLoss, dup: sc.PubDup, reorder: sc.PubReorder}
+				h.pubConns = append(h.pubConns, w)
+			}
+			return w, nil
 		}
 	} else {
 		c.Protocol = new(gortsplib.ProtocolTCP)
@@ -942,6 +979,12 @@ func (h *harness) relayCount() (n int, settled bool) {
 	return len(h.relayRecs), valid == len(h.writes)
 }
 
+func (h *harness) flushPub() {
+	for _, w := range h.pubConns {
+		w.faults.flushTo(w.UDPConn)
+	}
+}
+
 func (h *harness) publishAll() {
 	sc := h.sc
 	h.pubOut = make([]byte, sc.N)
@@ -954,7 +997,13 @@ func (h *harness) publishAll() {
 			Header:  rtp.Header{Version: 2, PayloadType: p.pt, SequenceNumber: p.seq, Timestamp: p.ts, Marker: p.marker, SSRC: p.ssrcIn},
 			Payload: genPayload(sc.Seed, wid, p.size),
 		}
-		err := h.pub.WritePacketRTP(h.pubDesc.Medias[p.media], pkt)
+		var err error
+		if h.rawPub != nil {
+			pkt.SSRC = 0x51000000 + uint32(p.media)<<8 + uint32(p.fi) // one SSRC per format, as a real sender has
+			err = h.rawPub.write(p.media, pkt)
+		} else {
+			err = h.pub.WritePacketRTP(h.pubDesc.Medias[p.media], pkt)
+		}
 		var full liberrors.ErrClientWriteQueueFull
 		switch {
 		case err == nil:
@@ -968,6 +1017,7 @@ func (h *harness) publishAll() {
 		h.progress.Store(int64(wid + 1))
 		h.pace(wid)
 	}
+	h.flushPub()
 	// let the publisher's queue and the server drain
 	want := 0
 	for _, o := range h.pubOut {
@@ -992,11 +1042,13 @@ func (h *harness) publishAll() {
 			quiet = 300 * time.Millisecond
 			if int(h.pubSent.Load()) < want {
 				last = time.Now()
+			} else {
+				h.flushPub()
 			}
 			h.relayMu.Lock()
 			arrived := len(h.relayArr)
 			h.relayMu.Unlock()
-			if int(h.pubSent.Load()) >= want && arrived >= want && settled && time.Since(last) > 20*time.Millisecond {
+			if len(h.pubConns) == 0 && int(h.pubSent.Load()) >= want && arrived >= want && settled && time.Since(last) > 20*time.Millisecond {
 				break
 			}
 		}
@@ -1062,8 +1114,14 @@ func (h *harness) run() error {
 	}
 	t0 := time.Now()
 	if h.sc.Relay != "" {
-		if err := h.startPublisher(); err != nil {
-			return err
+		var perr error
+		if h.sc.PubRaw && h.sc.Relay == "tcp" {
+			perr = h.startRawPublisher()
+		} else {
+			perr = h.startPublisher()
+		}
+		if perr != nil {
+			return perr
 		}
 		h.publishAll()
 	} else {
@@ -1072,10 +1130,14 @@ func (h *harness) run() error {
 	h.schedule(h.sc.N, true)
 	wg.Wait()
 	h.tWrite = time.Since(t0)
-	if h.pub != nil {
+	if h.pub != nil || h.rawPub != nil {
 		// the publisher goes first: no relay callback may run while the readers' sessions close (see pipe.go)
-		h.pub.Close()
-		h.pub = nil
+		if h.pub != nil {
+			h.pub.Close()
+			h.pub = nil
+		} else {
+			h.rawPub.close()
+		}
 		select {
 		case <-h.pubClosed:
 		case <-time.After(10 * time.Second):
